@@ -86,6 +86,8 @@ def classify(cex):
     v = cex.get("violation")
     if v == "read-failed":
         return "read_vs_unlink"
+    if v == "stale-intent":
+        return "stale-intent"
     if v in ("dangling", "not-exact"):
         puts = [i for i, k in enumerate(kinds) if k == "put"]
         steps = cex.get("steps", [])
@@ -123,14 +125,22 @@ def digest_hash_hook(ex, st_meta_key="thread_hash"):
     return m_hash_from_bytes
 
 
-def explore(ex, kinds, U=2, HU=2, inv=None, max_states=200000, no_orphans=False):
+def fault_rename_into_cas(op, info):
+    """the one fault site of the interleaving explorations: the rename of a staged blob into cas/ (the call
+    between a put's register_intent and its index apply; the lock-gated replay can inject exactly this call)"""
+    return op == "rename" and (info.get("dst") or ("",))[0] == "cas"
+
+
+def explore(ex, kinds, U=2, HU=2, inv=None, max_states=200000, no_orphans=False, faults=0):
     """run the given operations as threads from an arbitrary quiet store; -> (sw, infos, finals)"""
     from obl_replay import scoped_models
     with scoped_models(ex):
         if ex.models.io_hook is None:
             IoModel(ex.models)
         st = State()
+        st.faults_left = faults
         sw = quiet_world(ex, st, U, HU)
+        sw.io.fault_filter = fault_rename_into_cas if faults else None
         if no_orphans:
             st.pc += [z3.Not(b) for b in sw.orphan_bits]
         progs, infos = [], []
@@ -159,6 +169,7 @@ def explore(ex, kinds, U=2, HU=2, inv=None, max_states=200000, no_orphans=False)
         finally:
             ex.on_schedule = None
             sw.io.disk = None
+            sw.io.fault_filter = None
         return sw, infos, finals
 
 
@@ -198,15 +209,17 @@ def summarize(st):
     return out
 
 
-def ob_schedules(ex, kinds, U=2, HU=2, tags=("C04",), check_reads=True, final_exact=False):
+def ob_schedules(ex, kinds, U=2, HU=2, tags=("C04",), check_reads=True, final_exact=False, faults=0):
     t0 = time.time()
     q0 = ex.queries
-    sw, infos, finals = explore(ex, kinds, U, HU, inv=inv_no_dangling(ex), no_orphans=final_exact)
+    sw, infos, finals = explore(ex, kinds, U, HU, inv=inv_no_dangling(ex), no_orphans=final_exact, faults=faults)
     what_ = {"C15": "some thread can always proceed until all are done (no deadlock), no panic",
              "C07": "no dangling reference at any instant; after an error-free schedule cas/ holds exactly the referenced contents",
              "C05": "a get whose key was present at its lookup succeeds; no dangling reference at any instant"}.get(
                  tags[0] if tags else "", "no dangling reference at any instant; reads of present keys succeed")
-    name = "every interleaving of " + " || ".join(kinds) + f" (U={U}, HU={HU}): " + what_
+    if faults:
+        what_ += "; one failed rename into cas/ anywhere: still no dangling reference, and when all calls have returned no intent is left behind"
+    name = "every interleaving of " + " || ".join(kinds) + f" (U={U}, HU={HU}{', 1 fault' if faults else ''}): " + what_
     terms = dict(keys=sw.iw.keys, hashes=sw.iw.hashes, pk=sw.iw.pk, hk=sw.iw.hk, orphans=sw.orphan_bits)
     for i, inf in enumerate(infos):
         for k2, v in inf.items():
@@ -228,6 +241,14 @@ def ob_schedules(ex, kinds, U=2, HU=2, tags=("C04",), check_reads=True, final_ex
             for tid, rv in f.meta.get("results", {}).items():
                 if infos[tid]["kind"] == "get" and isinstance(rv, VEnum) and rv.concrete() == 1:
                     what = ("read-failed", "a get returned an error (BlobDataMissing) although its key was present at its lookup")
+        if what is None and f.status == "returned":
+            # quiescence: every call has returned (successfully or not) -> pending_intents is empty again; an intent left
+            # behind protects a blob for ever (never reclaimed), one removed too early exposes a concurrent commit
+            im = f.load(sw.intents_ref)
+            left = z3.Or([z3.Select(im.present, k) for k in sw.iw.keys])
+            if ex.feasible(f.pc, left):
+                f.pc.append(left)
+                what = ("stale-intent", "all operations have returned but pending_intents still holds an intent")
         if what is None and final_exact and f.status == "returned":
             res = f.meta.get("results", {})
             if all(isinstance(rv, VEnum) and rv.concrete() == 0 for rv in res.values()):
